@@ -17,14 +17,20 @@ for name in sorted(os.listdir(os.path.join(HERE, "seeded"))):
                 "git -C /repo apply patch.diff; ./check <id> --tier quick; git -C /repo checkout -- ."],
     }
     first, after = {}, {}
-    for m in re.finditer(r"^check (C\d+) rc=(\d)(.*)$", log, re.M):
+    parts = re.split(r"^== re-check after strengthening.*$", log, flags=re.M)
+    for m in re.finditer(r"^check (C\d+) rc=(\d)(.*)$", parts[0], re.M):
         first[m.group(1)] = {"rc": int(m.group(2)), "line": m.group(3).strip()}
-    for m in re.finditer(r"^after strengthening: check (C\d+) rc=(\d)(.*)$", log, re.M):
+    for m in re.finditer(r"^after strengthening: check (C\d+) rc=(\d)(.*)$", parts[0], re.M):
         after[m.group(1)] = {"rc": int(m.group(2)), "line": m.group(3).strip()}
+    for part in parts[1:]:
+        for m in re.finditer(r"^check (C\d+) rc=(\d)(.*)$", part, re.M):
+            after[m.group(1)] = {"rc": int(m.group(2)), "line": m.group(3).strip()}
     meta["checks_first_run"] = first
     if after:
         meta["checks_after_strengthening"] = after
-    caught = sorted({c for c, v in list(first.items()) + list(after.items()) if v["rc"] == 1})
+    final = dict(first); final.update(after)
+    caught = sorted(c for c, v in final.items() if v["rc"] == 1)
+    meta["concrete_failing_input_found_by"] = sorted(c for c, v in final.items() if v["rc"] == 1 and "no-failing-input-found" not in v["line"])
     meta["caught_by"] = caught
     json.dump(meta, open(mp, "w"), indent=1)
-    print(name, "caught_by", caught, "first", {c: v["rc"] for c, v in first.items()})
+    print(name, "caught_by", caught, "first", {c: v["rc"] for c, v in first.items()}, "after", {c: v["rc"] for c, v in after.items()})
